@@ -50,10 +50,13 @@ def rand_spec(r):
                                        getter=r.random() < 0.4, setter=r.random() < 0.3, doc=r.choice(["", "doc"])))
             sigs = set()
             nops = r.randint(0, 5) if kind != "struct" else r.randint(0, 1)
+            nconst = sum(1 for a in c["attrs"] if a["const"] and not a["static"])
             for _ in range(nops):
-                ctor = kind == "class" and r.random() < 0.3
+                ctor = kind == "class" and r.random() < 0.35
                 oname = name if ctor else r.choice(VERBS) + r.choice(["", "", "All", "Now"])
-                n = r.randint(0, 3)
+                # a modelled constructor often takes one value per read-only attribute - as many parameters as the
+                # initialising constructor the generator writes on its own
+                n = nconst if ctor and r.random() < 0.5 else r.randint(0, 3)
                 if (oname, n) in sigs:
                     continue
                 sigs.add((oname, n))
